@@ -333,8 +333,9 @@ def r28_functions(ctx, specs, rule='R28'):
             carried = loop_carried(fi, loop, current, ctx)
             kinds = allowed.get('__kinds__', ()) if isinstance(allowed, dict) else ()
             bad = {}
+            import re as _re28
             for k, v in carried.items():
-                if k in allowed:
+                if k in allowed or _re28.sub(r'__i\d+$', '', k) in allowed:      # (a local of an inlined helper keeps its role)
                     continue
                 kd = carried_kind(loop, k) if k not in via_names(carried, k) else 'EXTERNAL'
                 if kd in kinds:
@@ -812,7 +813,7 @@ def _fixed_keys_update(call):
     return isinstance(a, ast.Call) and isinstance(a.func, ast.Name) and a.func.id == 'dict' and not a.args
 
 
-def _read_before_write(body, name, also_calls=()):
+def _read_before_write(body, name, also_calls=(), assigning_calls=(), want_state=False):
     """May a read of `name` in this statement list happen before `name` has been assigned on the way from the top?  A small
     must-be-assigned walk over the statements (branches joined by `and`, loop bodies and try bodies may not run, nested functions
     are not entered).  -> the first such read (node) or None"""
@@ -848,6 +849,11 @@ def _read_before_write(body, name, also_calls=()):
     def stmt(s_, a):
         if isinstance(s_, (ast.FunctionDef, ast.AsyncFunctionDef, ast.ClassDef)):
             return a
+        if isinstance(s_, ast.Expr) and isinstance(s_.value, ast.Call) and isinstance(s_.value.func, ast.Name) and \
+                s_.value.func.id in assigning_calls:
+            for x in list(s_.value.args) + [k.value for k in s_.value.keywords]:
+                note(x, a)
+            return True         # a sibling closure that sets the name before it does anything else with it
         if isinstance(s_, ast.Assign):
             note(s_.value, a)
             for t in s_.targets:
@@ -892,7 +898,9 @@ def _read_before_write(body, name, also_calls=()):
             return a and a2
         note(s_, a)
         return a
-    block(body, False)
+    final = block(body, False)
+    if want_state:
+        return (found[0] if found else None), final
     return found[0] if found else None
 
 
@@ -1018,13 +1026,24 @@ def _owned_elements(factory, bound, module_helpers=None):
             events.clear()
             events.update(new_events)
 
-        def path_keys(e):
+        single = {}
+        for n in own:
+            if isinstance(n, ast.Assign) and len(n.targets) == 1 and isinstance(n.targets[0], ast.Name):
+                single.setdefault(n.targets[0].id, []).append(n.value)
+
+        def path_keys(e, depth=0):
             ks = []
             while isinstance(e, (ast.Subscript, ast.Attribute)):
                 if isinstance(e, ast.Subscript):
                     ks.append(e.slice.value if isinstance(e.slice, ast.Constant) else None)
                 e = e.value
-            return (e.id if isinstance(e, ast.Name) else None), list(reversed(ks))
+            ks = list(reversed(ks))
+            # a local bound once to a part of an object (target_fields = target['schema']['fields']) stands for that part
+            if isinstance(e, ast.Name) and e.id not in bound and len(single.get(e.id, [])) == 1 and depth < 4 and \
+                    isinstance(single[e.id][0], (ast.Subscript, ast.Name)):
+                nm, ks0 = path_keys(single[e.id][0], depth + 1)
+                return nm, ks0 + ks
+            return (e.id if isinstance(e, ast.Name) else None), ks
         resets = {}
         for n in own:
             if isinstance(n, ast.Assign):
@@ -1222,10 +1241,21 @@ def closure_rerun_state(factory, module_helpers=None):
                     if g.name not in users and any(isinstance(n, ast.Name) and n.id in users for n in ast.walk(g)):
                         users.add(g.name)
                         grew = True
+            # closures that themselves set the name before using it (a `start_run()` helper): calling one is an assignment
+            setters = set()
+            for g in inner:
+                if g.name in users:
+                    r_, fin_ = _read_before_write(g.body, nm, also_calls=users - {g.name}, want_state=True)
+                    if r_ is None and fin_:
+                        setters.add(g.name)
             for e in entries:
-                r = _read_before_write(e.body, nm, also_calls=users - {e.name})
+                r = _read_before_write(e.body, nm, also_calls=users - {e.name} - setters, assigning_calls=setters)
                 if r is not None:
                     out.append((nm, r, e.name, 'rebound'))
+    # a name the handed-out function sets afresh before anything uses it is a per-run object: what a run adds to it is gone with it
+    carried = {h[0] for h in out if len(h) > 3 and h[3] == 'rebound'}
+    per_run = rebound - carried
+    out = [h for h in out if not (len(h) == 3 and h[0] in per_run)]
     have = {id(h[1]) for h in out}
     out.extend(h for h in _owned_elements(factory, bound, module_helpers) if id(h[1]) not in have)
     return out
@@ -1239,6 +1269,24 @@ def _own_walk(fn):
         if isinstance(n, (ast.FunctionDef, ast.AsyncFunctionDef, ast.Lambda)):
             continue
         st.extend(ast.iter_child_nodes(n))
+
+
+def _with_normalised_closures(ctx, fi):
+    """The factory with each of its directly nested functions in normalised form (module-level helpers they call inlined): what a
+    run does to the factory's objects is the same whether it is written in the step function or in a helper it calls."""
+    from sa.astcopy import clone
+    node = clone(fi.node)
+    try:
+        for i, st in enumerate(node.body):
+            if isinstance(st, (ast.FunctionDef, ast.AsyncFunctionDef)):
+                orig = [x for x in fi.node.body if isinstance(x, (ast.FunctionDef, ast.AsyncFunctionDef)) and x.name == st.name]
+                g = ctx.repo.func_of_node.get(id(orig[0])) if len(orig) == 1 else None
+                if g is not None:
+                    node.body[i] = clone(ctx.N(g).node)
+    except Exception:
+        return fi.node
+    ast.fix_missing_locations(node)
+    return node
 
 
 def _module_key_reads(module):
@@ -1384,7 +1432,7 @@ def r34_closure_state(ctx, include=None, rule='R34'):
             run.ok(rule, fi.where, fi.qualname, 'helper factory called only while a run is under way (%d call sites): its scope is '
                    'created afresh for every run' % len(sites))
             continue
-        hits = closure_rerun_state(fi.node, _module_key_reads(fi.module))
+        hits = closure_rerun_state(_with_normalised_closures(ctx, fi), _module_key_reads(fi.module))
         if not hits:
             run.ok(rule, fi.where, fi.qualname, 'the step function grows nothing that belongs to the factory scope')
         seen = set()
